@@ -47,4 +47,31 @@ def jobs(tier):
                        caps={'map': 4, 'vec_vec_I': 4, 'vec_I': 4, 'vec_lit': 2}, abstract_fields=ABS, harness=HARNESS % ('smt_idl_theory_new_%s__lin__lin' % rel), roots=['smt_lin_ctor'], timeout=3000, mem_gb=24,
                        force_types=['std::vector<std::vector<long>>', 'std::vector<smt::lit>'],
                        bounded='expressions with <= 2 terms each over 4 time points, |coefficients| < 2^%d, |x| <= 4' % W))
+    # ---- expression queries.  bounds(l): the interval must be the one derived from the variable-level distances, must enclose the
+    # value of l under every valuation consistent with the matrix (here: the ghost one), and every integer difference form is served
+    preq = ['__CPROVER_is_fresh(l, sizeof(*l))', '__exc == 0 && sp_x_ok()', 'lin_shape(*l) && sp_lin_keys_ok(*l)', 'in_range_lin(*l) && lin_nonzero(*l)', 'wf_lin(*l)',
+            'sp_D_shape(self->_dists) && sp_D_within(self->_dists, XT_DQ) && sp_x_consistent(self->_dists)', 'sp_lin_rec(100, *l) && sp_q_rec(self->_dists)']
+    hq = '  { I_t xs[XT_NTP]; for (int i = 0; i < XT_NTP; i++) xt_x[i] = xs[i]; }'
+    HQ = 'void xt_harness(void)\n{\n  xt_init_globals();\n' + hq + '\n  struct smt_idl_theory th; struct smt_lin *l;\n  smt_idl_theory_bounds__lin(&th, l);\n}\n'
+    BO = 'sp_bounds_of(self->_dists, *l)'
+    cb = Contract(requires=preq,
+                  ensures=[('only_invalid_argument', '__exc == 0 || __exc == EXC_invalid_argument'),
+                           ('serves_every_integer_difference_form', '!%s.ok || __exc == 0' % BO),
+                           ('agrees_with_the_variable_level_distances', '__exc != 0 || !%s.ok || ((WIDE_t)%s.first == %s.lo && (WIDE_t)%s.second == %s.hi)' % (BO, R, BO, R, BO)),
+                           ('encloses_every_consistent_valuation', '__exc != 0 || (sp_val_sign(*l, (WIDE_t)%s.first) >= 0 && sp_val_sign(*l, (WIDE_t)%s.second) <= 0)' % (R, R))],
+                  assigns='__exc')
+    out.append(Job('idl.bounds', 'smt_idl_theory_bounds__lin', tus=TUS, contract=cb, defines=dict(d, XT_DQ=(20 if bits == 8 else 64)), unwind=6, model_unwind=8, spec_headers=SPEC, exceptions=True,
+                   caps={'map': 4, 'vec_vec_I': 4, 'vec_I': 4, 'vec_lit': 2}, abstract_fields=dict(ABS, **{'smt::lit': ['x']}), harness=HQ, timeout=3000, mem_gb=24,
+                   force_types=['std::vector<std::vector<long>>'],
+                   replay={'driver': 'dl', 'stanza': '''  const int n = XT_NTP; sat_core sat; idl_theory *th = build_idl_q(sat, n); lin l = mk_lin(100);
+  q_bounds want = bounds_of(*th, l); rational v = lin_value(l, n); std::string why;
+  try {
+    auto [lb, ub] = th->bounds(l);
+    if (want.ok && (lb != want.lo || ub != want.hi)) { ok = false; why += " the distances give [" + std::to_string(want.lo) + ", " + std::to_string(want.hi) + "];"; }
+    if (rational(lb) > v || rational(ub) < v) { ok = false; why += " a consistent valuation gives the expression the value " + to_string(v) + ";"; }
+    observed = "bounds(" + show(l) + ") = [" + std::to_string(lb) + ", " + std::to_string(ub) + "]" + why;
+  } catch (const std::invalid_argument &e) { if (want.ok) ok = false; observed = "bounds(" + show(l) + ") throws invalid_argument"; }
+  required = "the interval derived from the variable-level distances, enclosing every consistent valuation";
+'''},
+                   bounded='expressions with <= 2 terms over %d time points, |coefficients| < 2^%d, |x| <= 4, finite distances only (|D| <= 20 in the 8-bit quick tier, 64 otherwise: the inf() sentinel and its arithmetic are not modelled)' % (d['XT_NTP'], W)))
     return out
